@@ -46,21 +46,19 @@ theorem twitterRoute_total (path : List Str) (fragment : Str) :
         · exact ⟨_, rfl⟩
   · split <;> exact ⟨_, rfl⟩
 
-/-- one activation of `parse_twitter_url` never raises, for every string -/
-theorem twitterStep_total (url : Str) : ∃ s, twitterStep url = .ok s := by
-  unfold twitterStep
+/-- one run of the loop body of `parse_twitter_url` never raises, for every string -/
+theorem loopBody_total (url : Str) : ∃ s, loopBody url = .ok s := by
+  unfold loopBody
   split
   · exact ⟨_, rfl⟩
-  · split
-    · exact ⟨_, rfl⟩
-    · exact twitterRoute_total _ _
+  · exact twitterRoute_total _ _
 
-/-! ### the re-entry loop, for an arbitrary activation function -/
+/-! ### the `while True` loop, for an arbitrary body -/
 
-/-- if an activation never raises, the only exception of the loop is `RecursionError` -/
-theorem runSteps_only_recursion_error (step : Str → Except Err Step)
+/-- if the body never raises, the only error value of the loop is running out of budget -/
+theorem runSteps_only_non_termination (step : Str → Except Err Step)
     (htot : ∀ u, ∃ s, step u = .ok s) (limit : Nat) (url : Str) (e : Err)
-    (h : runSteps step limit url = .error e) : e = .recursionError := by
+    (h : runSteps step limit url = .error e) : e = .nonTermination := by
   induction limit generalizing url with
   | zero =>
     obtain ⟨s, hs⟩ := htot url
@@ -75,7 +73,7 @@ theorem runSteps_only_recursion_error (step : Str → Except Err Step)
     | done r => cases h
     | reroute u' => exact ih u' h
 
-/-- if an activation never raises and every re-entry decreases a measure `μ`, the loop returns
+/-- if the body never raises and every re-entry decreases a measure `μ`, the loop returns
 whenever `μ url ≤ limit` -/
 theorem runSteps_total (step : Str → Except Err Step) (μ : Str → Nat)
     (htot : ∀ u, ∃ s, step u = .ok s)
@@ -120,99 +118,74 @@ theorem runSteps_limit_irrelevant (step : Str → Except Err Step) (μ : Str →
         simp only [runSteps, hs]
         exact ih m u' (by omega) (by omega)
 
-/-- **the only exception `parse_twitter_url` can raise is `RecursionError`** (no `IndexError`,
-`KeyError`, `ValueError`, `TypeError`, `AttributeError`), for every string and every stack
-depth -/
-theorem parse_twitter_url_only_recursion_error (limit : Nat) (url : Str) (e : Err)
-    (h : parse_twitter_url limit url = .error e) : e = .recursionError :=
-  runSteps_only_recursion_error twitterStep twitterStep_total limit url e h
-
-/-- a re-entry consumes at least one `#`: the url `parse_twitter_url` calls itself on holds
-fewer `#` than the one it was given -/
-theorem reroute_count (url url' : Str) (h : twitterStep url = .ok (.reroute url')) :
+/-- **a re-entry consumes at least one `#`**: the url the loop goes round again on holds fewer
+`#` than the one the body was given (the fragment follows the first `#`, the routed path is a
+suffix of the fragment, `"twitter.com/"` holds none) -/
+theorem reroute_count (url url' : Str) (h : loopBody url = .ok (.reroute url')) :
     url'.count '#' + 1 ≤ url.count '#' := by
-  unfold twitterStep at h
+  unfold loopBody at h
   split at h
   · cases h
-  · split at h
-    · cases h
-    · rename_i parsed hp
-      unfold twitterRoute at h
-      split at h
-      · -- a non-empty path never re-enters
-        rename_i hne
-        cases hpath : pathsplit parsed.path with
-        | nil => exact absurd hpath hne
-        | cons p0 rest =>
-          rw [hpath] at h
-          simp only [getIdx, List.getElem?_cons_zero, bind, Except.bind] at h
-          split at h
-          · obtain ⟨r, hr⟩ := listRoute_total (p0 :: rest)
-            rw [hr] at h; cases h
-          · split at h
-            · rename_i h3
-              match rest, h3 with
-              | [b, c], _ => cases h
-            · cases h
-      · split at h
-        · rename_i hbang
-          injection h with h
-          injection h with h
-          have hfne : parsed.fragment ≠ [] := by
-            intro h0; rw [h0] at hbang; exact absurd hbang (by decide)
-          have h1 := safe_urlsplit_fragment_count url parsed hp hfne
-          have h2 := count_le_of_suffix (subAnchored_nil_suffix Gen.C19Small.TWITTER_FRAGMENT_ROUTING_RE
-            parsed.fragment) '#'
-          rw [← h, List.count_append]
-          have : "twitter.com/".toList.count '#' = 0 := by decide
-          omega
-        · cases h
+  · rename_i parsed hp
+    unfold twitterRoute at h
+    split at h
+    · -- a non-empty path never re-enters
+      rename_i hne
+      cases hpath : pathsplit parsed.path with
+      | nil => exact absurd hpath hne
+      | cons p0 rest =>
+        rw [hpath] at h
+        simp only [getIdx, List.getElem?_cons_zero, bind, Except.bind] at h
+        split at h
+        · obtain ⟨r, hr⟩ := listRoute_total (p0 :: rest)
+          rw [hr] at h; cases h
+        · split at h
+          · rename_i h3
+            match rest, h3 with
+            | [b, c], _ => cases h
+          · cases h
+    · split at h
+      · rename_i hbang
+        injection h with h
+        injection h with h
+        have hfne : parsed.fragment ≠ [] := by
+          intro h0; rw [h0] at hbang; exact absurd hbang (by decide)
+        have h1 := safe_urlsplit_fragment_count url parsed hp hfne
+        have h2 := count_le_of_suffix (subAnchored_nil_suffix Gen.C19Small.TWITTER_FRAGMENT_ROUTING_RE
+          parsed.fragment) '#'
+        rw [← h, List.count_append]
+        have : "twitter.com/".toList.count '#' = 0 := by decide
+        omega
+      · cases h
 
-/-- the full statement: `parse_twitter_url` never raises, whatever the stack depth -/
-def FullParseTwitterTotal : Prop :=
-  ∀ (limit : Nat) (url : Str), ∃ r, parse_twitter_url limit url = .ok r
+/-- **`parse_twitter_url` never raises and its loop terminates, for every string**: no
+`IndexError` (`twitterRoute_total`), and the `while True:` loop leaves within `#'#'` re-entries
+(`reroute_count`) — the `nonTermination` value of the model is unreachable -/
+theorem parse_twitter_url_total (url : Str) : ∃ r, parse_twitter_url url = .ok r := by
+  unfold parse_twitter_url
+  split
+  · exact ⟨_, rfl⟩
+  · exact runSteps_total loopBody (fun u => u.count '#') loopBody_total reroute_count _ url
+      (Nat.le_refl _)
 
-/-- **`parse_twitter_url` is total on every string that holds no more `#` than the interpreter
-stack allows re-entries** (`_partial`: the excluded region is `limit < #'#'`, where
-`RecursionError` is reachable — `fullParseTwitterTotal_false`, known finding KF-C19-S1) -/
-theorem parse_twitter_url_total_partial (limit : Nat) (url : Str) (h : url.count '#' ≤ limit) :
-    ∃ r, parse_twitter_url limit url = .ok r :=
-  runSteps_total twitterStep (fun u => u.count '#') twitterStep_total reroute_count limit url h
+/-- the budget the model gives the loop is immaterial: any budget of at least `#'#'` re-entries
+gives the same answer (so the model's loop is the code's unbounded `while True`) -/
+theorem parse_twitter_url_budget_irrelevant (n : Nat) (url : Str) (h : url.count '#' ≤ n) :
+    parse_twitter_url url =
+      if !is_twitter_url url then .ok none else runSteps loopBody n url := by
+  unfold parse_twitter_url
+  split
+  · rfl
+  · exact runSteps_limit_irrelevant loopBody (fun u => u.count '#') loopBody_total reroute_count
+      _ n url (Nat.le_refl _) h
 
-/-- the answer does not depend on the stack depth once it is sufficient: the hashbang
-re-entry could be a loop (the patch proposed for KF-C19-S1) -/
-theorem parse_twitter_url_limit_irrelevant (l₁ l₂ : Nat) (url : Str)
-    (h₁ : url.count '#' ≤ l₁) (h₂ : url.count '#' ≤ l₂) :
-    parse_twitter_url l₁ url = parse_twitter_url l₂ url :=
-  runSteps_limit_irrelevant twitterStep (fun u => u.count '#') twitterStep_total reroute_count
-    l₁ l₂ url h₁ h₂
-
-/-- `extract_screen_name_from_twitter_url` raises nothing but what `parse_twitter_url` does -/
-theorem extract_screen_name_only_recursion_error (limit : Nat) (url : Str) (e : Err)
-    (h : extract_screen_name_from_twitter_url limit url = .error e) : e = .recursionError := by
-  unfold extract_screen_name_from_twitter_url at h
-  split at h
-  · rename_i e' he
-    injection h with h
-    rw [← h]; exact parse_twitter_url_only_recursion_error limit url e' he
-  all_goals cases h
-
-theorem extract_screen_name_total_partial (limit : Nat) (url : Str) (h : url.count '#' ≤ limit) :
-    ∃ r, extract_screen_name_from_twitter_url limit url = .ok r := by
-  obtain ⟨r, hr⟩ := parse_twitter_url_total_partial limit url h
+/-- **`extract_screen_name_from_twitter_url` never raises**, for every string -/
+theorem extract_screen_name_total (url : Str) :
+    ∃ r, extract_screen_name_from_twitter_url url = .ok r := by
+  obtain ⟨r, hr⟩ := parse_twitter_url_total url
   unfold extract_screen_name_from_twitter_url
   rw [hr]
   split <;> first | exact ⟨_, rfl⟩ | (rename_i he; cases he)
-
-/-- the excluded region is really excluded: with no re-entry left, the hashbang url
-`twitter.com/#!bob` raises `RecursionError` (in CPython: `'twitter.com/#' + '!#'*1200 + '!bob'`
-with the default stack, replayed on the implementation as KF-C19-S1) -/
-theorem fullParseTwitterTotal_false : ¬ FullParseTwitterTotal := by
-  intro h
-  obtain ⟨r, hr⟩ := h 0 "twitter.com/#!bob".toList
-  have : parse_twitter_url 0 "twitter.com/#!bob".toList = .error .recursionError := by decide +kernel
-  rw [this] at hr
-  cases hr
 
 /-! ### well-formed records -/
 
@@ -302,16 +275,14 @@ theorem twitterRoute_nonempty (path : List Str) (fragment : Str) (he : Ends path
           exact hname
   · split at h <;> cases h
 
-theorem twitterStep_nonempty (url : Str) (rec : Record)
-    (h : twitterStep url = .ok (.done (some rec))) : NonEmptyFields rec := by
-  unfold twitterStep at h
+theorem loopBody_nonempty (url : Str) (rec : Record)
+    (h : loopBody url = .ok (.done (some rec))) : NonEmptyFields rec := by
+  unfold loopBody at h
   split at h
   · cases h
-  · split at h
-    · cases h
-    · exact twitterRoute_nonempty _ _ (pathsplit_ends _) rec h
+  · exact twitterRoute_nonempty _ _ (pathsplit_ends _) rec h
 
-/-- what the loop returns was returned by one of its activations -/
+/-- what the loop returns was returned by one run of its body -/
 theorem runSteps_result (step : Str → Except Err Step) (P : Record → Prop)
     (hP : ∀ u rec, step u = .ok (.done (some rec)) → P rec)
     (limit : Nat) (url : Str) (rec : Record) (h : runSteps step limit url = .ok (some rec)) : P rec := by
@@ -330,25 +301,31 @@ theorem runSteps_result (step : Str → Except Err Step) (P : Record → Prop)
     · exact ih _ h
 
 /-- **every record `parse_twitter_url` returns is well formed**: no screen name, tweet id or
-list id is the empty string — for every string and every stack depth -/
-theorem twitter_record_wellformed (limit : Nat) (url : Str) (rec : Record)
-    (h : parse_twitter_url limit url = .ok (some rec)) : NonEmptyFields rec :=
-  runSteps_result twitterStep NonEmptyFields twitterStep_nonempty limit url rec h
+list id is the empty string — for every string -/
+theorem twitter_record_wellformed (url : Str) (rec : Record)
+    (h : parse_twitter_url url = .ok (some rec)) : NonEmptyFields rec := by
+  unfold parse_twitter_url at h
+  split at h
+  · cases h
+  · exact runSteps_result loopBody NonEmptyFields loopBody_nonempty _ url rec h
 
 /-! ### non-vacuity -/
 
-example : parse_twitter_url 1 "twitter.com/#!/bob/status/1".toList =
+example : parse_twitter_url "twitter.com/#!/bob/status/1".toList =
     .ok (some (.tweet "bob".toList "1".toList)) := by decide +kernel
-example : parse_twitter_url 5 "https://mobile.twitter.com/@Bob?lang=fr".toList =
+example : parse_twitter_url "https://mobile.twitter.com/@Bob?lang=fr".toList =
     .ok (some (.user "bob".toList)) := by decide +kernel
-example : parse_twitter_url 5 "https://x.com/i/lists/55".toList = .ok (some (.list "55".toList)) := by
+example : parse_twitter_url "https://x.com/i/lists/55".toList = .ok (some (.list "55".toList)) := by
+  decide +kernel
+/-- nested hashbangs are routed one `#` at a time (the input class of the fixed RecursionError) -/
+example : parse_twitter_url "twitter.com/#!#!#!#!bob".toList = .ok (some (.user "bob".toList)) := by
   decide +kernel
 /-- the truncated paths of the statement and of the fixed defects parse to `None` -/
-example : parse_twitter_url 5 "twitter.com/i".toList = .ok none ∧
-    parse_twitter_url 5 "twitter.com/@".toList = .ok none ∧
-    parse_twitter_url 5 "https://[@twitter.com/i".toList = .ok none ∧
-    parse_twitter_url 5 "http://nottwitter.com/bob".toList = .ok none := by decide +kernel
-example : extract_screen_name_from_twitter_url 5 "twitter.com/Bob/status/1".toList = .ok (some "bob".toList) := by
+example : parse_twitter_url "twitter.com/i".toList = .ok none ∧
+    parse_twitter_url "twitter.com/@".toList = .ok none ∧
+    parse_twitter_url "https://[@twitter.com/i".toList = .ok none ∧
+    parse_twitter_url "http://nottwitter.com/bob".toList = .ok none := by decide +kernel
+example : extract_screen_name_from_twitter_url "twitter.com/Bob/status/1".toList = .ok (some "bob".toList) := by
   decide +kernel
 
 end Ural.Props.C19.Twitter
@@ -620,7 +597,9 @@ theorem sRoute_good (path : List Str) : Good (sRoute path) := by
       · exact good_some trivial
       · simp only [Nat.zero_add, Nat.reduceAdd, if_true]
         split
-        · rename_i hid; exact good_some hid
+        · split
+          · rename_i hid; exact good_some hid
+          · exact good_none
         · exact good_none
     | a :: b :: c :: d :: rest, _ =>
       simp only [getIdx, List.getElem?_cons_zero, List.getElem?_cons_succ, bind, Except.bind,
@@ -796,18 +775,11 @@ def NonEmptyFields : Record → Prop
 instance (r : Record) : Decidable (NonEmptyFields r) := by
   cases r <;> unfold NonEmptyFields <;> infer_instance
 
-/-- the full statement: no record has an empty field -/
-def FullTelegramWellFormed : Prop :=
-  ∀ (url : Str) (rec : Record), parse_telegram_url url = .ok (some rec) → NonEmptyFields rec
-
-/-- the region where the full statement fails: a message record read from `/s/<name>/<id>`
-with an empty middle segment -/
-def EmptyMiddle (path : List Str) : Prop :=
-  ∃ id, path = ["s".toList, [], id]
-
-theorem sRoute_nonempty_partial (path : List Str) (he : Ends path) (hm : ¬ EmptyMiddle path)
-    (rec : Record) (h : sRoute path = .ok (some rec)) (h0 : path.head? = some "s".toList) :
-    NonEmptyFields rec := by
+/-- the `/s/…` routes build no record with an empty field: the name of a message is tested
+(`and path[1]`, the guard added by the fix of `t.me/s//123`), every other field is the last
+segment -/
+theorem sRoute_nonempty (path : List Str) (he : Ends path) (rec : Record)
+    (h : sRoute path = .ok (some rec)) : NonEmptyFields rec := by
   unfold sRoute at h
   split at h
   · cases h
@@ -836,15 +808,14 @@ theorem sRoute_nonempty_partial (path : List Str) (he : Ends path) (hm : ¬ Empt
         exact he.2 c rfl
       · simp only [Nat.zero_add, Nat.reduceAdd, if_true] at h
         split at h
-        · rename_i hid
-          injection h with h
-          injection h with h
-          rw [← h]
-          refine ⟨?_, message_id_ne_nil c hid⟩
-          intro hb
-          apply hm
-          simp only [List.head?_cons, Option.some.injEq] at h0
-          exact ⟨c, by rw [h0, hb]⟩
+        · rename_i hb
+          split at h
+          · rename_i hid
+            injection h with h
+            injection h with h
+            rw [← h]
+            exact ⟨hb, message_id_ne_nil c hid⟩
+          · cases h
         · cases h
     | a :: b :: c :: d :: rest, _ =>
       simp only [getIdx, List.getElem?_cons_zero, List.getElem?_cons_succ, bind, Except.bind,
@@ -915,13 +886,10 @@ theorem plainRoute_nonempty (path : List Str) (he : Ends path) (rec : Record)
         · omega
         · cases h
 
-/-- **every record `parse_telegram_url` returns is well formed, except a message read from
-`/s//<id>`** (`_partial`: hypothesis `¬ EmptyMiddle`; the excluded region really fails —
-`fullTelegramWellFormed_false`, known finding KF-C19-S2) -/
-theorem telegram_record_wellformed_partial (url : Str) (rec : Record)
-    (h : parse_telegram_url url = .ok (some rec))
-    (hm : ∀ parsed, safe_urlsplit url = some parsed → ¬ EmptyMiddle (pathsplit parsed.path)) :
-    NonEmptyFields rec := by
+/-- **every record `parse_telegram_url` returns is well formed**: no channel name, message id
+or group id is the empty string — for every string -/
+theorem telegram_record_wellformed (url : Str) (rec : Record)
+    (h : parse_telegram_url url = .ok (some rec)) : NonEmptyFields rec := by
   unfold parse_telegram_url at h
   split at h
   · cases h
@@ -929,28 +897,18 @@ theorem telegram_record_wellformed_partial (url : Str) (rec : Record)
     · cases h
     · rename_i parsed hp
       have he := pathsplit_ends parsed.path
-      have hm' := hm parsed hp
       unfold telegramRoute at h
       split at h
       · rename_i hne
         cases hpath : pathsplit parsed.path with
         | nil => exact absurd hpath hne
         | cons p0 rest =>
-          rw [hpath] at h he hm'
+          rw [hpath] at h he
           simp only [getIdx, List.getElem?_cons_zero, bind, Except.bind] at h
           split at h
-          · rename_i hs
-            exact sRoute_nonempty_partial _ he hm' rec h (by rw [hs]; rfl)
+          · exact sRoute_nonempty _ he rec h
           · exact plainRoute_nonempty _ he rec h
       · cases h
-
-/-- the excluded region is really excluded: `t.me/s//123` is read as a message of the channel
-`''` (replayed on the implementation as KF-C19-S2) -/
-theorem fullTelegramWellFormed_false : ¬ FullTelegramWellFormed := by
-  intro h
-  have hp : parse_telegram_url "t.me/s//123".toList = .ok (some (.message [] "123".toList)) := by
-    decide +kernel
-  exact (h _ _ hp).1 rfl
 
 /-! ### non-vacuity -/
 
@@ -961,6 +919,7 @@ example : parse_telegram_url "telegram.me/joinchat/AAAAAEkk2WdoDrB4-Q8-gg".toLis
 example : parse_telegram_url "T.ME/Bob".toList = .ok (some (.channel "Bob".toList)) := by decide +kernel
 /-- the truncated paths of the statement and of the fixed defects parse to `None` -/
 example : parse_telegram_url "t.me/s".toList = .ok none ∧
+    parse_telegram_url "t.me/s//123".toList = .ok none ∧
     parse_telegram_url "t.me/s/joinchat".toList = .ok none ∧
     parse_telegram_url "t.me/bob/12a".toList = .ok none ∧
     parse_telegram_url "https://[@t.me/s".toList = .ok none ∧
